@@ -4,15 +4,15 @@ go 1.26
 
 require (
 	github.com/bronlabs/bron-crypto v0.0.0
+	github.com/bronlabs/errs-go v0.2.2
 	github.com/fxamacker/cbor/v2 v2.9.0
+	golang.org/x/crypto v0.52.0
 	pgregory.net/rapid v1.3.0
 )
 
 require (
-	github.com/bronlabs/errs-go v0.2.2 // indirect
 	github.com/cronokirby/saferith v0.33.0 // indirect
 	github.com/x448/float16 v0.8.4 // indirect
-	golang.org/x/crypto v0.52.0 // indirect
 	golang.org/x/exp v0.0.0-20260209203927-2842357ff358 // indirect
 	golang.org/x/sync v0.20.0 // indirect
 )
